@@ -419,7 +419,7 @@ NUM = ["0", "1", "-5", "5", "0x5", "0b101", "1_0", "-0", "1.5", "999999999999999
        "1.0000000596046448", "16777217.000000001", "9007199254740993", "9007199254740992", "0x1p-2", "1e-400", ".5", "5.", "inf"]
 BOOLS = ["true", "false", "1", "0", "T", "F", "TRUE", "yes", "", "t", "True", "tRUE"]
 STRS = ["hello", "ell", "", "abc", "^h.*o$", "(a|b", "l{2}", "x", "k", "a", "1", "[0-9]+", "^$", "/usr/bin", "o w"]
-CONT = ["1", "a", "x", "", "abc", "5", "true", "k", "0", "http", "maybe", "0.0", "1.5", "s", "one", "2"]
+CONT = ["1", "a", "x", "", "abc", "5", "true", "k", "0", "http", "maybe", "0.0", "1.5", "s", "one", "2", "300", "-212", "32768", "44"]
 ABSENT = ["1", "a", ""]
 OPS_V = ["==", "!=", "in", "notin", "matches", "notmatches"]
 OPS_E = ["empty", "notempty"]
@@ -474,6 +474,11 @@ def atoms_for_docs(docs, depth, rnd, per_path=None, absent=True, ops_v=OPS_V, op
                     kt = key_text(e["key"])
                     if kt is not None and kt not in own:
                         own.append(kt)
+                    # literals congruent to a key modulo the key type's width (must not wrap onto it)
+                    if e["key"]["k"] in ("int", "uint") and nd["kt"].get("bits") in (8, 16, 32):
+                        for t in (str(limbs_to_int(e["key"]["v"]) + 2 ** nd["kt"]["bits"]), str(limbs_to_int(e["key"]["v"]) - 2 ** nd["kt"]["bits"])):
+                            if t not in own:
+                                own.append(t)
     atoms = []
     for key in sorted(bypath):
         pl = list(pools[key])
